@@ -26,6 +26,7 @@ var c13Cfg = mwCfg{
 		"dispose.fork", "dispose.cas", "dispose.idle"},
 	pHook:      2,
 	timeWeight: 12,
+	pSpecial:   3,
 }
 
 func init() { register(&Family{ID: "C13", Run: runC13}) }
